@@ -138,6 +138,23 @@ def model_lines(ctx, cases, lines, impl_lines):
     return out
 
 
+def run_impl(ctx, cases, lines):
+    """the real crate, in batches of 400 cases with a 120 s limit each, so that a hang (only seen with
+    defective crates: deadlock, endless loop) costs two minutes instead of the pipeline's default 15;
+    after 3 hangs the remaining cases are reported as hangs without being run"""
+    vc = ctx["vc"]
+    out, hangs = [], 0
+    for i in range(0, len(lines), 400):
+        chunk = lines[i:i + 400]
+        if hangs >= 3:
+            out += ["xhang"] * len(chunk)
+            continue
+        got = vc.run_lines([ctx["vh"]], chunk, timeout_per_batch=120)
+        hangs += sum(1 for g in got if g == "xhang")
+        out += got
+    return out
+
+
 # --------------------------------------------------------------------------
 # comparison + direct property oracles (independent of the model)
 
